@@ -225,7 +225,7 @@ func GenS(rng *Rng, prop, variant, tier string) *SScript {
 			switch x := rng.Intn(100); {
 			case x < 12 && len(lives) < 3:
 				createColl(names[len(lives)], 1, "default", false)
-			case x < 20:
+			case x < 20 || (prop == "C04" && x < 40):
 				var alive []*lc
 				for _, l := range lives {
 					if l.alive {
@@ -301,7 +301,7 @@ func genSOps(rng *Rng, sc *SScript, prop string) {
 		if rng.Pct(30) {
 			sc.Faults["ddl_reject_before"] = 1
 		}
-		if prop == "C05" || prop == "C03" {
+		if prop == "C05" || prop == "C03" || prop == "C04" {
 			sc.Knobs.Crashes = rng.Range(0, 2)
 		}
 		if rng.Pct(20) {
